@@ -138,3 +138,47 @@ pub fn call_tx(addr: Address, spec: SpecId) -> String {
     }
 }
 
+
+
+/// The same two probes on ONE Evm whose hardfork is switched in place (`modify_spec_id` or the builder's
+/// `modify().with_spec_id()`) after it already executed a transaction under `spec_a`: what the probe then
+/// observes under `spec_b` must be what a freshly built Evm for `spec_b` observes.
+fn norm(r: Result<revm::primitives::ResultAndState, revm::primitives::EVMError<core::convert::Infallible>>) -> String {
+    match r {
+        Ok(rs) => match rs.result {
+            ExecutionResult::Success { reason, gas_used, output, .. } => format!("S {:?} {} {}", reason, gas_used, crate::hxb(output.data())),
+            ExecutionResult::Revert { gas_used, .. } => format!("R {}", gas_used),
+            ExecutionResult::Halt { reason, gas_used } => format!("H {:?} {}", reason, gas_used),
+        },
+        Err(e) => format!("E {:?}", e),
+    }
+}
+
+pub fn reused_call(spec_a: SpecId, spec_b: SpecId, to: Address, code: Option<Vec<u8>>, via_builder: bool) -> (String, String) {
+    let mk_db = || {
+        let mut db = InMemoryDB::default();
+        let caller = Address::with_last_byte(0x99);
+        db.insert_account_info(caller, AccountInfo { balance: U256::from(1u64 << 60), ..Default::default() });
+        if let Some(c) = &code {
+            db.insert_account_info(to, AccountInfo { code: Some(Bytecode::new_raw(Bytes::from(c.clone()))), ..Default::default() });
+        }
+        db
+    };
+    let set_tx = |tx: &mut revm::primitives::TxEnv| {
+        tx.caller = Address::with_last_byte(0x99);
+        tx.transact_to = TxKind::Call(to);
+        tx.gas_limit = 1_000_000;
+        tx.data = Bytes::from(pc_input());
+    };
+    let mut evm = Evm::builder().with_db(mk_db()).with_spec_id(spec_a).modify_tx_env(set_tx).build();
+    let _ = evm.transact();
+    let mut evm = if via_builder {
+        evm.modify().with_spec_id(spec_b).build()
+    } else {
+        evm.modify_spec_id(spec_b);
+        evm
+    };
+    let reused = norm(evm.transact());
+    let mut fresh = Evm::builder().with_db(mk_db()).with_spec_id(spec_b).modify_tx_env(set_tx).build();
+    (reused, norm(fresh.transact()))
+}
